@@ -612,6 +612,18 @@ def shard(ctx):
             [] if paren_words else
             ['discobrackets'] + (['brackets'] * 2 if cont_bank else [])))
         case['sgz'] = case['sfmt'] != 'tigerxml' and rng.random() < 0.15
+        if case['sfmt'] in ('brackets', 'discobrackets') \
+                and case['fmt'] != 'lopar' and rng.random() < 0.6:
+            # a one-token sentence written without a constituent above the
+            # token, `(UH Yes)`: the token is counted in the lexicon
+            tk = rng.choice(gen.tokens_of(rng.choice(case['bank'])['root']))
+            case['bank'].insert(
+                rng.randrange(len(case['bank']) + 1),
+                {'sid': len(case['bank']) + 1,
+                 'root': {'n': 1, 'w': tk['w'], 'p': tk['p'], 'e': '--',
+                          'm': '--', 'lm': '--'}})
+            ctx.stratum('cli: bracket source with a sentence that is a '
+                        'single tagged token')
         if rng.random() < 0.3:
             case['sopts'] = [rng.choice(['continuous', 'brackets_firstid:7'])]
         r = rng.random()
